@@ -94,8 +94,14 @@ def _ufun(name, n):
 def _forall_str(interp, args, kwargs):
     """forall_str(lambda p: ...): quantification over all strings (specification only)"""
     ctx = interp.ctx
-    p = z3.Const(ctx.fresh_name("p"), z3.StringSort())
-    body = interp.call(args[0], [SV(STR, p)], {})
+    # the bound variable is named by nesting depth, so that two instances of one clause text are the same term
+    depth = getattr(ctx, "_forall_str_depth", 0)
+    p = z3.Const(f"p_forall_str_{depth}", z3.StringSort())
+    ctx._forall_str_depth = depth + 1
+    try:
+        body = interp.call(args[0], [SV(STR, p)], {})
+    finally:
+        ctx._forall_str_depth = depth
     return SV(BOOL, z3.ForAll([p], ctx.zbool(ctx.truth(body))))
 
 
